@@ -46,7 +46,9 @@ pub fn gen(r: &mut Rng, _i: u64) -> String {
     let (ah, ap) = gen_host(r, base, if h2 { 6 } else { 3 });
     let tls = r.chance(9, 10);
     let (sni, _) = if tls { gen_host(r, base, 9) } else { ("-".into(), "-".into()) };
-    format!("{} {hh} {hp} {ah} {ap} {} {sni}", h2 as u8, tls as u8)
+    // (HTTP/1.0 and 0.9 requests name their host the way HTTP/1.1 ones do)
+    let ver = if h2 { "1" } else if r.chance(1, 5) { *r.pick(&["10", "09"]) } else { "0" };
+    format!("{ver} {hh} {hp} {ah} {ap} {} {sni}", tls as u8)
 }
 
 #[derive(Clone)]
@@ -76,7 +78,7 @@ pub fn run(toks: &[&str]) -> String {
     }
     let h2 = toks[0] == "1";
     let join = |h: &str, p: &str| if p == "-" { h.to_string() } else { format!("{h}:{p}") };
-    let mut b = http::Request::builder().version(if h2 { http::Version::HTTP_2 } else { http::Version::HTTP_11 });
+    let mut b = http::Request::builder().version(match toks[0] { "1" => http::Version::HTTP_2, "10" => http::Version::HTTP_10, "09" => http::Version::HTTP_09, _ => http::Version::HTTP_11 });
     if toks[3] != "-" {
         b = b.uri(format!("https://{}/path?q=1", join(toks[3], toks[4])));
     } else {
